@@ -190,6 +190,11 @@ void mmd_export_token_beamer(DString * out, const char * source, token * t, scra
 								temp_token = NULL;
 						}
 
+						if (temp_token == t->child) {
+							// Only the opening fence is present
+							temp_token = NULL;
+						}
+
 						if (temp_token) {
 							d_string_append_c_array(out, &source[t->child->next->start], temp_token->start - t->child->next->start);
 							scratch->padded = 1;
